@@ -2,6 +2,9 @@ import Lean.Data.Json
 import SpoxModel.Model.Scope
 import SpoxModel.Model.Named
 import SpoxModel.Model.Naming
+import SpoxModel.Model.InlineCheck
+import SpoxModel.Generated.Dtypes
+import SpoxModel.Model.InternalReq
 /-! Line-protocol handler for C02: (a) `ScopeSpace` operation sequences, (b) the structural checker on
     a named graph (the real ModelProto), (c) the naming model on an emission tree. -/
 namespace Drv.C02
@@ -149,6 +152,27 @@ def namesInScope (ng : NGraph) (sc : Scope) : Bool :=
   (valueNames ds).all (fun v => vnames.contains v) &&
   (nodeNames ds).all (fun n => nnames.contains n || nnames.any (fun m => n.startsWith (m ++ "_id")))
 
+/-! (d) the argument check of an inlined model. Encoding as in Drv/C13: dimension = number | string |
+    null; shape = null | [dims]; tensor type = [classId, shape]; argument = type | null (no type). -/
+def parseDim (j : Json) : Except String Types.Natural :=
+  match j with
+  | .null => pure (.unk "")
+  | .str s => pure (.unk s)
+  | .num _ => do let n ← fromJson? (α := Nat) j; pure (.const n)
+  | _ => throw "bad dim"
+
+def parseTensor (j : Json) : Except String Types.Ty := do
+  let a ← fromJson? (α := Array Json) j
+  match a.toList with
+  | [e, s] => do
+      let e ← fromJson? (α := Nat) e
+      let sh ← (match s with
+        | Json.null => pure none
+        | Json.arr ds => do let l ← ds.toList.mapM parseDim; pure (some l)
+        | _ => throw "bad shape" : Except String Types.Shape)
+      pure (.tensor e sh)
+  | _ => throw "bad tensor type"
+
 def handle (req : Json) : Json :=
   match (do
     let k ← req.getObjValAs? String "k"
@@ -170,6 +194,23 @@ def handle (req : Json) : Json :=
         return Json.mkObj [("graph", ngraphJson ng), ("trace_ok", replayOk),
           ("accept", checkStructural ng), ("trace_len", st.trace.length),
           ("names_in_scope", namesInScope ng st.sc)]
+    | "inline_check" =>
+      let declsJ ← req.getObjValAs? (Array Json) "decls"
+      let argsJ ← req.getObjValAs? (Array Json) "args"
+      let decls ← declsJ.toList.mapM parseTensor
+      let args ← argsJ.toList.mapM (fun j => match j with
+        | Json.null => (pure none : Except String (Option Types.Ty))
+        | _ => do let t ← parseTensor j; pure (some t))
+      return Json.mkObj [("accept", InlineCheck.accepts Generated.Dtypes.table decls args)]
+    | "intro_req" =>
+      let ksJ ← req.getObjValAs? (Array String) "kinds"
+      let ks ← ksJ.toList.mapM (fun s => match s with
+        | "untyped" => pure InternalReq.Kind.untyped
+        | "tensor" => pure InternalReq.Kind.tensor
+        | "seq" => pure InternalReq.Kind.seq
+        | "optional" => pure InternalReq.Kind.optional
+        | _ => (throw "bad kind" : Except String InternalReq.Kind))
+      return Json.mkObj [("req", InternalReq.introReq ks)]
     | _ => throw "bad request kind") with
   | .ok j => j
   | .error e => Json.mkObj [("error", e)]
